@@ -34,7 +34,7 @@ vars == <<S, M, last>>
 
 L == 1
 Nop == [h |-> 0, ty |-> "nop"]
-IdleTh == [pc |-> "idle", i |-> 0, cur |-> 0, ok |-> FALSE, rec |-> Nop, rpc |-> "", rpk |-> "", todo |-> {}]
+IdleTh == [pc |-> "idle", i |-> 0, cur |-> 0, ok |-> FALSE, rec |-> Nop, rpc |-> "", rpk |-> "", todo |-> {}, pmsg |-> ""]
 
 Users(sc) == { u + 1 : u \in DOMAIN sc.prog }
 Subs(s) == DOMAIN s.subs
@@ -61,9 +61,18 @@ Start(s, t) ==
 IsQuery(s, h) == s.subs[h] = "query"
 Goto(s, t, pc) == [s EXCEPT !.th[t].pc = pc]
 Panic(s, msg) == [s EXCEPT !.panic = msg]
+\* A panic in a user thread kills the process at once.  A panic in the listener first runs listen's
+\* `defer c.Close()` (the goroutine is panicking but Close executes normally, yield points included)
+\* and kills the process when Close returns.  (A panic of the listener inside that Close is fatal at once.)
+PanicIn(s, t, msg) ==
+  IF t = L /\ s.th[t].rpc # "l_die" /\ s.th[t].rpc # "l_end"
+    THEN [s EXCEPT !.th[t].pc = "c_lk", !.th[t].rpc = "l_die", !.th[t].pmsg = msg]
+    ELSE Panic(s, msg)
+\* return from Close to th.rpc
+CloseRet(s, t) == IF s.th[t].rpc = "l_die" THEN Panic(s, s.th[t].pmsg) ELSE [s EXCEPT !.th[t].pc = s.th[t].rpc]
 
 CloseCh(s, t, h, j, next) ==
-  IF s.cls[h][j] >= 1 THEN Panic(s, "close of closed channel")
+  IF s.cls[h][j] >= 1 THEN PanicIn(s, t, "close of closed channel")
   ELSE [s EXCEPT !.cls[h][j] = @ + 1, !.th[t].pc = next]
 
 Acts(s, t) ==
@@ -74,12 +83,16 @@ Acts(s, t) ==
                        \cup (IF s.cc THEN { Goto(s, t, "l_x") } ELSE {})
     [] pc = "l_lk"  -> IF s.dl = 0 THEN { [s EXCEPT !.dl = t, !.th[t].pc = "l_get"] } ELSE {}
     [] pc = "l_get" -> { [s EXCEPT !.th[t].cur = IF th.rec.h \in s.disp THEN th.rec.h ELSE 0, !.th[t].pc = "l_ul"] }
-    [] pc = "l_ul"  -> { [s EXCEPT !.dl = 0, !.th[t].pc = IF th.cur = 0 THEN "l_hdr" ELSE "l_h"] }
+    \* nobody registered: the record's body stays on the wire and is decoded as the next header (its map has
+    \* no Seq field, so the sequence number of the previous header is looked up once more)
+    [] pc = "l_ul"  -> { [s EXCEPT !.dl = 0, !.th[t].pc = IF th.cur = 0 THEN "l_hdr" ELSE "l_h",
+                                   !.inbox = IF th.cur = 0 /\ th.rec.ty \in {"rec", "ack", "resp", "done"}
+                                               THEN << [h |-> th.rec.h, ty |-> "body"] >> \o @ ELSE @] }
     [] pc = "l_h"   -> IF th.cur >= 100 THEN { [s EXCEPT !.errch[th.cur - 100] = 1, !.th[t].pc = "l_hdr"] }
                        ELSE IF th.rec.ty = "done" THEN { [s EXCEPT !.th[t].pc = "d_lk", !.th[t].rpc = "l_hdr"] }
                        ELSE { Goto(s, t, "l_snd") }
     [] pc = "l_snd" -> LET j == IF th.rec.ty = "resp" THEN 2 ELSE 1 IN
-                       IF s.cls[th.cur][j] >= 1 THEN { Panic(s, "send on closed channel") }
+                       IF s.cls[th.cur][j] >= 1 THEN { PanicIn(s, t, "send on closed channel") }
                        ELSE { [s EXCEPT !.got[th.cur][j] = @ + 1, !.th[t].pc = "l_hdr"] }
     [] pc = "l_x"   -> IF s.sl = 0 THEN { [s EXCEPT !.th[t].pc = "c_lk", !.th[t].rpc = "l_end"] } ELSE {}
     \* deregisterHandler(th.cur), returns to th.rpc
@@ -102,14 +115,14 @@ Acts(s, t) ==
                         THEN { [s EXCEPT !.th[t].cur = 100 + t, !.th[t].rpc = "ret", !.th[t].pc = "d_lk"] } ELSE {}
     \* Close, returns to th.rpc
     [] pc = "c_lk"  -> IF s.sl = 0 THEN { [s EXCEPT !.sl = t, !.th[t].pc = "c_chk"] } ELSE {}
-    [] pc = "c_chk" -> IF s.shut THEN { [s EXCEPT !.sl = 0, !.th[t].pc = th.rpc] }
+    [] pc = "c_chk" -> IF s.shut THEN { CloseRet([s EXCEPT !.sl = 0], t) }
                        ELSE { [s EXCEPT !.shut = TRUE, !.th[t].pc = "c_dlk"] }
     [] pc = "c_dlk" -> IF s.dl = 0 THEN { [s EXCEPT !.dl = t, !.th[t].todo = s.disp, !.th[t].pc = "c_it"] } ELSE {}
     [] pc = "c_it"  -> IF th.todo = {} THEN { [s EXCEPT !.disp = {}, !.dl = 0, !.th[t].pc = "c_cc"] }
                        ELSE { IF h >= 100 THEN [s EXCEPT !.th[t].todo = @ \ {h}]
                               ELSE [s EXCEPT !.th[t].todo = @ \ {h}, !.th[t].cur = h, !.th[t].rpk = "c_it", !.th[t].pc = "k_chk"]
                               : h \in th.todo }
-    [] pc = "c_cc"  -> { [s EXCEPT !.cc = TRUE, !.sl = 0, !.th[t].pc = th.rpc] }
+    [] pc = "c_cc"  -> { CloseRet([s EXCEPT !.cc = TRUE, !.sl = 0], t) }
     \* the agent sends one more record
     [] pc = "fd"    -> LET o == CurOp(s, t) IN
                        { [s EXCEPT !.inbox = IF s.cc THEN @ ELSE Append(@, [h |-> o.h, ty |-> o.ty]), !.th[t].pc = "ret"] }
